@@ -5,3 +5,6 @@ import BB.Props.C03
 #print axioms BB.check_app_complete
 #print axioms BB.apply_rule_positive
 #print axioms BB.apply_rule_canon
+#print axioms BB.Sym.sym_step_sound
+#print axioms BB.Sym.sym_period_sound
+#print axioms BB.Sym.validate_app_sound
